@@ -6,6 +6,7 @@ import (
 	"go/token"
 	"go/types"
 	"sort"
+	"strings"
 
 	"gvc/internal/contract"
 	"gvc/internal/smt"
@@ -707,6 +708,21 @@ func (e *Engine) typeFacts(st *State, v Val) {
 	}
 	if b, ok := v.Ty.Underlying().(*types.Basic); ok && b.Info()&types.IsUnsigned != 0 && v.T.Sort == smt.Int {
 		st.Assume(smt.Ge(v.T, smt.IntLit(0)))
+	}
+	// the elements of a slice of integers / booleans are boxed integers / booleans
+	if sl, ok := v.Ty.Underlying().(*types.Slice); ok && v.T.Sort == smt.V {
+		var bx, ub string
+		switch SortOf(sl.Elem()) {
+		case smt.Int:
+			bx, ub = "box_int", "unbox_int"
+		case smt.Bool:
+			bx, ub = "box_bool", "unbox_bool"
+		}
+		if bx != "" && !strings.Contains(v.T.S, " ") {
+			j := smt.T{S: "j?t", Sort: smt.Int}
+			at := smt.App(smt.V, "s_at", v.T, j)
+			st.Assume(smt.Forall([]smt.Bound{{Name: j.S, Sort: smt.Int}}, smt.Eq(smt.App(smt.V, bx, smt.App(SortOf(sl.Elem()), ub, at)), at), at))
+		}
 	}
 }
 
